@@ -1,6 +1,7 @@
 package clsim
 
 import (
+	"fmt"
 	"math/big"
 
 	"pgregory.net/rapid"
@@ -41,6 +42,10 @@ func (l *spreadLedger) check(rt *rapid.T, s *Sim, in string) {
 	ulp := new(big.Rat).SetFrac(big.NewInt(1), e18)
 	if !s.Legacy {
 		ulp.Quo(ulp, new(big.Rat).SetInt(new(big.Int).Exp(big.NewInt(10), big.NewInt(27), nil)))
+	}
+	if l.ref.Ambiguous {
+		s.class("ledger-skipped-ambiguous-walk-end")
+		return
 	}
 	// the walk must describe the same liquidity the positions add up to, otherwise the reference does not apply
 	for i, b := range l.ref.Buckets {
@@ -91,8 +96,12 @@ func (l *spreadLedger) check(rt *rapid.T, s *Sim, in string) {
 			diff.Neg(diff)
 		}
 		if diff.Cmp(tol) > 0 {
-			rt.Fatalf("spread-fee attribution: the swap credited position %d [%d,%d) liquidity %s with %s %s, its share of the spread charges of the buckets it covers is %s (tolerance %s, %d buckets) [history %v]",
-				p.PositionId, p.LowerTick, p.UpperTick, p.Liquidity, got.FloatString(0), in, want.FloatString(3), tol.FloatString(3), len(l.ref.Buckets), s.Hist)
+			var bs []string
+			for i, b := range l.ref.Buckets {
+				bs = append(bs, fmt.Sprintf("{tick %d L %s fee %s in %s crossed %v->%d}", l.tickPos[i], b.L.FloatString(3), b.Fee.FloatString(3), b.AmountIn.FloatString(3), b.Crossed, b.CrossedTo))
+			}
+			rt.Fatalf("spread-fee attribution: the swap credited position %d [%d,%d) liquidity %s with %s %s, its share of the spread charges of the buckets it covers is %s (tolerance %s, buckets %v) [history %v]",
+				p.PositionId, p.LowerTick, p.UpperTick, p.Liquidity, got.FloatString(0), in, want.FloatString(3), tol.FloatString(3), bs, s.Hist)
 		}
 	}
 	s.LedgerChecked++
